@@ -1,10 +1,13 @@
 import RQ.Driver.ApplyEngine
+import RQ.Driver.DistEngine
 open RQ
 
 def step (line : String) : String :=
   let fields := line.trimAscii.toString.splitOn "|"
   match fields.head? with
   | some "A" => ApplyEngine.step fields
+  | some "D" => DistEngine.step fields
+  | some "T" => ApplyEngine.stepT fields
   | _ => "bad-op"
 
 partial def loop (h : IO.FS.Stream) (out : IO.FS.Stream) : IO Unit := do
